@@ -205,6 +205,45 @@ check against SHA1(salt | 20 zero bytes). distinct = distinct (length, distribut
                 rep.sample(format!("{} bytes cut at {:?}: windows == mac == generic == {}", len, cuts, hex(&model(&[&data], &salt, &key))));
             }
         }
+        // structurally special lengths: files that end exactly on 4 KiB / 64 KiB multiples of the concatenation
+        for (i, (total_len, cuts)) in [
+            (65536usize, [65536usize, 65536, 65536, 65536]),
+            (65536 + 40, [65536, 65546, 65556, 65566]),
+            (65536, [60000, 65536, 65536, 65536]),
+            (131072 + 7, [65536, 131072, 131072, 131075]),
+            (8192, [4096, 8192, 8192, 8192]),
+            (4096 * 3, [4096, 4096, 8192, 12288]),
+            (65536 * 3, [1, 65536, 65537, 131072]),
+            (65536 * 2, [0, 0, 65536, 65536]),
+        ]
+        .iter()
+        .enumerate()
+        {
+            if (i + sh) % 4 != 0 && n_sizes >= 10 {
+                continue;
+            }
+            if n_sizes < 10 {
+                break;
+            }
+            let data = rng.bytes(*total_len);
+            let salt: [u8; 16] = rng.arr();
+            let key: [u8; 32] = rng.arr();
+            judge(&mut rep, &data, *cuts, &salt, &key, "boundary_aligned_files");
+            // and the last byte of the aligned file matters
+            let base = login_integrity_check_generic(&data, &salt, &key);
+            for c in cuts.iter().filter(|c| **c > 0 && **c <= data.len()) {
+                let mut d2 = data.clone();
+                d2[*c - 1] ^= 1;
+                rep.ev(2);
+                let w = login_integrity_check_windows(&d2[..cuts[0]], &d2[cuts[0]..cuts[1]], &d2[cuts[1]..cuts[2]], &d2[cuts[2]..cuts[3]], &d2[cuts[3]..], &salt, &key);
+                let m = login_integrity_check_mac(&d2[..cuts[0]], &d2[cuts[0]..cuts[1]], &d2[cuts[1]..cuts[2]], &d2[cuts[2]..cuts[3]], &d2[cuts[3]..], &salt, &key);
+                if w == base || m == base {
+                    rep.violation("c17:file_bit_ignored:boundary_aligned", format!("changing the last byte of a file that ends at offset {} does not change the result", c), format!("dist {} {} {} {} {} {} {}", "00", cuts[0], cuts[1], cuts[2], cuts[3], hex(&salt), hex(&key)));
+                }
+            }
+            rep.count("boundary_aligned_inputs", 1);
+            rep.cell(&[2000, *total_len as u64, cuts[0] as u64]);
+        }
         if sh < big {
             let len = 1 << 20;
             let data = rng.bytes(len);
